@@ -170,7 +170,8 @@ class AsyncMap:
     __slots__ = ("source_stream", "map_value")
 
     def __init__(self, source_stream, map_value):
-        self.source_stream = source_stream
+        # The source only has to be an async iterable, not an iterator.
+        self.source_stream = source_stream.__aiter__()
         self.map_value = map_value
 
     def __aiter__(self):
